@@ -1538,7 +1538,7 @@ Proof.
       - rewrite S6 in F by auto. apply (Good (S i) h' b' w0); auto. }
     assert (Len1 : length wds = length tmp) by (cbn in Len; lia).
     pose proof (IH wds t1 Len1 Pl Hd Ina1 Cons1 Good1) as X. cbv zeta in X.
-    destruct (restart tmp wds t1) as [t2 r2]. cbn [fst snd] in *.
+    destruct (restart tmp wds t1) as [t2 r2] eqn:Er. cbn [fst snd] in *.
     destruct X as (R2 & G2 & P2).
     split; [exact R2|]. split.
     + intros h' N. cbn [map fst] in N. rewrite G2 by (intros I; apply N; right; exact I).
@@ -1560,11 +1560,11 @@ Proof.
             assert (F1' : find_w (wls s1) v = Some w1).
             { unfold s1. destruct (find_w (wls s0) v0); auto. cbn [wls set_wls]. rewrite find_app, F1. reflexivity. }
             cbn [wls upd_e set_ehs set_wls]. rewrite find_upd_w by auto.
-            destruct (v =? v0); [rewrite F1'; cbn; eexists; split; [reflexivity|exact B1]|exists w1; auto]. }
+            destruct (Z.eqb_spec v v0) as [Ev|Nv]; [rewrite <- Ev, F1'; cbn; eexists; split; [reflexivity|exact B1]|exists w1; auto]. }
           destruct (ev_start s0 h0 (e_cb (gete s0 h0)) b0 v0) as [s1 r1]. cbn [fst] in Y.
           destruct (r1 =? 0); [apply IH'; exact Y|exact Y]. }
         destruct (Keep tmp wds t1 (ex_intro _ w' (conj F' eq_refl))) as (w2 & F2 & B2).
-        assert (Et : fst (restart tmp wds t1) = t2) by (rewrite <- (surjective_pairing (restart tmp wds t1)) in *; auto).
+        rewrite Er in F2. cbn [fst] in F2.
         exists w2. split; [|rewrite B2, B'; destruct (find_w (wls t) v) as [w0|] eqn:F0; auto;
                             apply (Good 0%nat h b w0); auto].
         exact F2.
@@ -1572,4 +1572,132 @@ Proof.
         assert (N : h' <> h).
         { intros ->. apply Hn. apply in_map_iff. exists (h, b'). split; auto. eapply nth_error_In; eauto. }
         split; auto. split; [rewrite C2; rewrite S4; auto|exact W2].
+Qed.
+
+Lemma find_some_in' l wd w : find_w l wd = Some w -> In w l.
+Proof.
+  induction l as [|x l IH]; cbn [find_w]; [discriminate|].
+  destruct (w_wd x =? wd); [intros E; injection E as <-; left; reflexivity|intros F; right; auto].
+Qed.
+
+Lemma perm_insert_w w l : Permutation (insert_w w l) (w :: l).
+Proof.
+  induction l as [|x l IH]; cbn [insert_w]; auto.
+  destruct (w_wd w <? w_wd x); auto.
+  eapply perm_trans; [apply perm_skip; exact IH|]. apply perm_swap.
+Qed.
+
+Lemma perm_sort_w l : Permutation (sort_w l) l.
+Proof.
+  induction l as [|x l IH]; cbn [sort_w fold_right]; auto. fold (sort_w l).
+  eapply perm_trans; [apply perm_insert_w|]. apply perm_skip. exact IH.
+Qed.
+
+Lemma tmp_fst s : map fst (fork_tmp s) = members (sort_w (wls s)).
+Proof.
+  unfold fork_tmp, members. induction (sort_w (wls s)) as [|w L IH]; cbn [flat_map map]; auto.
+  rewrite map_app, IH, map_map. cbn [fst]. rewrite map_id. reflexivity.
+Qed.
+
+Lemma tmp_entry s h b :
+  In (h, b) (fork_tmp s) -> exists w, In w (wls s) /\ In h (w_hs w) /\ b = w_base w.
+Proof.
+  unfold fork_tmp. intros I. apply in_flat_map in I. destruct I as (w & Iw & Ih).
+  apply (proj1 (in_sort_w _ _)) in Iw. apply in_map_iff in Ih. destruct Ih as (h0 & E & Ih).
+  injection E as <- <-. exists w. auto.
+Qed.
+
+Lemma members_nodup L t :
+  Mem t -> NoDup (map w_wd L) -> (forall w, In w L -> find_w (wls t) (w_wd w) = Some w) ->
+  NoDup (members L).
+Proof.
+  intros M. induction L as [|w L IH]; intros ND HL; cbn [members flat_map]; [constructor|].
+  inversion ND as [|a b Hn Hd]; subst. fold (members L).
+  assert (N1 : NoDup (w_hs w)).
+  { destruct M as (_ & _ & NL). pose proof (NL _ _ (HL w (or_introl eq_refl))) as X.
+    apply NoDup_app_l in X. exact X. }
+  assert (N2 : NoDup (members L)) by (apply IH; auto; intros w' I; apply HL; right; exact I).
+  assert (D : forall h, In h (w_hs w) -> ~ In h (members L)).
+  { intros h Ih Im. unfold members in Im. apply in_flat_map in Im. destruct Im as (w' & Iw' & Ih').
+    destruct (proj1 (proj2 M) _ _ h (HL w (or_introl eq_refl)) (or_introl Ih)) as [_ E1].
+    destruct (proj1 (proj2 M) _ _ h (HL w' (or_intror Iw')) (or_introl Ih')) as [_ E2].
+    apply Hn. rewrite <- E1, E2. apply in_map. exact Iw'. }
+  clear -N1 N2 D. induction (w_hs w) as [|x l IHl]; cbn [app]; auto.
+  inversion N1 as [|a b Hx Hl]; subst. constructor.
+  - rewrite in_app_iff. intros [I|I]; [auto|]. apply (D x); [left; reflexivity|exact I].
+  - apply IHl; auto. intros h I. apply D. right. exact I.
+Qed.
+
+(* uv__inotify_fork keeps the watchers: with the kernel giving equal descriptors on the new inotify
+   instance exactly to the handles of one old list ([phi] injective), uv_loop_fork's inotify part
+   returns 0, every handle that was linked in a watcher list is active afterwards, with its callback,
+   in a list whose path (base name) is the path of its old list; every other handle is untouched *)
+Theorem fork_keeps_watchers :
+  forall s wds (phi : Z -> Z),
+  Mem s -> Quiet s ->
+  (forall wd, 0 <= phi wd) -> (forall a b, phi a = phi b -> a = b) ->
+  wds = map (fun hb => phi (e_wd (gete s (fst hb)))) (fork_tmp s) ->
+  let s' := fst (inotify_fork s wds) in
+  (exists ev, snd (inotify_fork s wds) = ev ++ [IRet 0]) /\
+  (forall wd w h, find_w (wls s) wd = Some w -> In h (w_hs w) ->
+     e_active (gete s' h) = true /\ e_cb (gete s' h) = e_cb (gete s h) /\
+     exists w', find_w (wls s') (e_wd (gete s' h)) = Some w' /\ w_base w' = w_base w) /\
+  (forall h, (forall wd w, find_w (wls s) wd = Some w -> ~ In h (w_hs w)) -> gete s' h = gete s h).
+Proof.
+  intros s wds phi M Q Pos Inj Ew. cbv zeta. unfold inotify_fork.
+  set (L := sort_w (wls s)).
+  assert (NDL : NoDup (map w_wd L)).
+  { eapply Permutation_NoDup; [|exact (proj1 M)]. apply Permutation_map. apply Permutation_sym. apply perm_sort_w. }
+  assert (HL : forall w, In w L -> find_w (wls s) (w_wd w) = Some w /\ w_local w = []).
+  { intros w I. apply (proj1 (in_sort_w _ _)) in I.
+    pose proof (find_in_nodup _ _ (proj1 M) I) as F. split; auto. apply (Q _ _ F). }
+  pose proof (fork_lists_spec L s [] M NDL HL) as X. cbv zeta in X.
+  destruct (fold_left fork_list L (s, [])) as [s1 e1]. cbn [fst] in X.
+  destruct X as (M1 & F1 & O1 & G1 & A1 & L1).
+  assert (AllNone : forall wd, find_w (wls s1) wd = None).
+  { intros wd. destruct (in_dec Z.eq_dec wd (map w_wd L)) as [I|N].
+    - apply in_map_iff in I. destruct I as (w & <- & Iw). apply F1; auto.
+    - rewrite O1 by auto. destruct (find_w (wls s) wd) as [w|] eqn:F; auto. exfalso. apply N.
+      pose proof (find_some_in _ _ _ F) as I. apply in_map_iff in I. destruct I as (w0 & E & I0).
+      apply in_map_iff. exists w0. split; auto. apply in_sort_w. exact I0. }
+  set (g := fun hb : nat * nat => phi (e_wd (gete s (fst hb)))) in *.
+  assert (Nth : forall i h b, nth_error (fork_tmp s) i = Some (h, b) -> nth i wds 0 = phi (e_wd (gete s h))).
+  { intros i h b E. rewrite Ew. apply nth_error_nth. rewrite (map_nth_error g _ _ E). reflexivity. }
+  assert (Ent : forall h b, In (h, b) (fork_tmp s) ->
+                exists w, find_w (wls s) (w_wd w) = Some w /\ In h (w_hs w) /\ b = w_base w /\
+                          e_wd (gete s h) = w_wd w /\ e_active (gete s h) = true).
+  { intros h b I. destruct (tmp_entry s h b I) as (w & Iw & Ih & Eb).
+    pose proof (find_in_nodup _ _ (proj1 M) Iw) as F.
+    destruct (proj1 (proj2 M) _ _ h F (or_introl Ih)) as [A E]. exists w. auto. }
+  pose proof (restart_spec (fork_tmp s) wds s1) as R. cbv zeta in R.
+  destruct R as (R0 & RG & RP).
+  - rewrite Ew. apply map_length.
+  - rewrite Ew. apply Forall_forall. intros v I. apply in_map_iff in I. destruct I as (x & <- & _). apply Pos.
+  - rewrite tmp_fst. apply (members_nodup L s M NDL). intros w I. apply HL. exact I.
+  - intros h b I. destruct (Ent h b I) as (w & F & Ih & _ & _ & A).
+    assert (Im : In h (members L)).
+    { unfold members. apply in_flat_map. exists w. split; auto. apply in_sort_w. eapply find_some_in' ; eauto. }
+    split; [apply A1; exact Im|]. rewrite L1. apply active_lt. exact A.
+  - intros i j h1 b1 h2 b2 E1 E2 E. rewrite (Nth i h1 b1 E1), (Nth j h2 b2 E2) in E. apply Inj in E.
+    destruct (Ent h1 b1 (nth_error_In _ _ E1)) as (w1 & Fw1 & _ & B1 & W1 & _).
+    destruct (Ent h2 b2 (nth_error_In _ _ E2)) as (w2 & Fw2 & _ & B2 & W2 & _).
+    rewrite W1, W2 in E. rewrite E in Fw1. rewrite Fw1 in Fw2. injection Fw2 as <-. congruence.
+  - intros i h b w0 _ F. rewrite AllNone in F. discriminate.
+  - destruct (restart (fork_tmp s) wds s1) as [s2 r]. cbn [fst snd] in *. subst r.
+    split; [exists e1; reflexivity|]. split.
+    + intros wd w h F Ih.
+      assert (I : In (h, w_base w) (fork_tmp s)).
+      { unfold fork_tmp. apply in_flat_map. exists w. split.
+        - apply in_sort_w. eapply find_some_in'; eauto.
+        - apply (in_map (fun h0 => (h0, w_base w))). exact Ih. }
+      destruct (In_nth_error _ _ I) as (i & E).
+      destruct (RP i h (w_base w) E) as (A & C & W).
+      split; auto. split; [|exact W].
+      rewrite C. apply A1. unfold members. apply in_flat_map. exists w. split; auto.
+      apply in_sort_w. eapply find_some_in'; eauto.
+    + intros h Nm. rewrite RG.
+      * apply G1. intros I. unfold members in I. apply in_flat_map in I. destruct I as (w & Iw & Ih).
+        destruct (HL w Iw) as [F _]. apply (Nm _ _ F Ih).
+      * rewrite tmp_fst. intros I. unfold members in I. apply in_flat_map in I. destruct I as (w & Iw & Ih).
+        destruct (HL w Iw) as [F _]. apply (Nm _ _ F Ih).
 Qed.
